@@ -62,6 +62,11 @@ func (my *OctetsReader) ReadBytes() ([]byte, error) {
 		return nil, nil
 	}
 
+	// the announced size must be available, otherwise a hostile prefix allocates up to 2GB
+	if int(size) > my.stream.Len()-my.stream.Position() {
+		return nil, ErrNotEnoughData
+	}
+
 	var data = make([]byte, size)
 	var num, err2 = my.stream.Read(data)
 	if err2 != nil {
